@@ -94,6 +94,11 @@ def oracle_moments(rng, d):
         r0 += len(bb)
     if r0 != A.shape[0]:
         return 'the compiled system has %d rows, the blocks of the constraint have %d' % (A.shape[0], r0)
+    Kc = [(co.type, int(co.len)) for co in K]
+    Kb = [(co.type, int(co.len)) for blk in cd2 for co in blk[4]]
+    if Kc != Kb:
+        return ('the cones of the compiled system %s differ from the cones of the blocks of the dual SAGE constraint %s (a product of cones is not one '
+                'cone of the summed length: the rows of two adjacent second-order cones of X are no longer required to lie in each of them)' % (Kc, Kb))
     if not np.allclose(A, E, rtol=1e-12, atol=0) or not np.allclose(np.asarray(b, dtype=float), np.array(eb), rtol=1e-12, atol=0):
         k = np.argwhere(~np.isclose(A, E, rtol=1e-12, atol=0))
         return ('the compiled matrix differs from the stacked blocks of the dual SAGE constraint, e.g. entry %s: compiled %r, block %r'
